@@ -55,9 +55,13 @@ func (m *vRmgr) RemoveNode(_ context.Context, name string) error {
 	return nil
 }
 
-func (m *vRmgr) GetNodeResourceInfo(_ context.Context, name string, _ []*types.Workload, _ bool) (resourcetypes.Resources, resourcetypes.Resources, []string, error) {
+func (m *vRmgr) GetNodeResourceInfo(_ context.Context, name string, ws []*types.Workload, fix bool) (resourcetypes.Resources, resourcetypes.Resources, []string, error) {
 	if m.w.fault("rmgr.GetNodeResourceInfo") {
 		return nil, nil, nil, vErrInjected
+	}
+	if fix && m.w.repair {
+		// repair: usage := sum of the recorded workloads (the real plugin's repair is C15)
+		vRepairUsage(m.w, name, ws)
 	}
 	return vRes(m.w.capacity[name]), vRes(m.w.usage[name]), nil, nil
 }
